@@ -46,12 +46,12 @@ Accepts(s) ==
       [] s = "outerNamed" -> {"AS"}
       [] s = "outerU8"    -> {"uint8"}
       [] s = "outerI64"   -> {"int64"}
-      [] s \in {"outerZero", "outerPInZero", "outerMSZero", "outerSAZero", "outerAll"} \cup CrossShapes -> {"bool"}   \* no real slot
+      [] s \in {"outerZero", "outerPInZero", "outerMSZero", "outerSAZero", "outerAll"} \cup CrossShapes \cup {"chainDeep"} -> {"bool"}   \* no real slot (chainDeep: a list of 40 nodes linked by pointers)
 
 VARIABLES shape, leaf
 GenInit == /\ shape \in Shapes
            /\ \E t \in Accepts(shape) : \E c \in ClassesOf(t) : leaf = [t |-> t, c |-> c]
-           /\ (shape \in {"outerZero", "outerPInZero", "outerMSZero", "outerSAZero", "outerAll"} \cup CrossShapes => leaf.c = "true")
+           /\ (shape \in {"outerZero", "outerPInZero", "outerMSZero", "outerSAZero", "outerAll"} \cup CrossShapes \cup {"chainDeep"} => leaf.c = "true")
 GenNone == FALSE /\ UNCHANGED <<shape, leaf>>
 
 EmitCase == PrintT(<<"CASE", ToJson([fam |-> "valuelit", case |-> [shape |-> shape, leaf |-> leaf]])>>)
